@@ -1,5 +1,6 @@
 import CnlDriver.CS
 import CnlModel.Elastic
+import CnlModel.ElasticScaled
 /-! `C05` table: elastic_integer operators over built-in narrowest types. -/
 namespace Cnl.Drv
 open Cnl Cnl.Elastic
@@ -26,6 +27,23 @@ def exactBin (op : BinOp) (l r : Int) : Int :=
   match op with
   | .add => l + r | .sub => l - r | .mul => l * r | .div => l.tdiv r | .mod => l.tmod r
   | _ => 0
+
+def pow2Q (e : Int) : Rat := if e ≥ 0 then (2 : Rat) ^ e.toNat else 1 / ((2 : Rat) ^ (-e).toNat)
+
+def showESNum (x : ElasticScaled.ESNum) : String :=
+  let rep := match repTy x.digits x.narrowest with
+    | some r => r.toString
+    | none => "?"
+  s!"sc(el({x.digits},{x.narrowest.toString}),{x.exp},2)/{rep}:{x.value}"
+
+/-- parse `sc(el(D,N),E,2)/rep:v` into digits, narrowest signedness, exponent and value -/
+def parseEsRes (res : String) : Option (Nat × Bool × Int × Int) :=
+  match res.splitOn ":" with
+  | [ty, v] =>
+    match (ty.splitOn "/").head?.bind (fun t => parseTy t) with
+    | some (.sc (.el d (.int n)) e 2) => v.toInt?.map (fun v => (d, n.signed, e, v))
+    | _ => none
+  | _ => none
 
 /-- known-defect class of an input (none after the repairs) -/
 def c05Class (op : BinOp) (x y : ENum) : String :=
@@ -87,6 +105,52 @@ def checkC05 (toks : List String) (res : String) : Option Verdict :=
       | none => some false
     let cls := if l < 0 && l / 2^k < -(2^(dl - k) - 1 : Int) then "C05.shr_negative_below_declared_range" else ""
     some { model := showRes showENum (shrConst x k), spec := spec, cls := cls, branch := "shrc", nontrivial := decide x.InRange }
+  | ["scaledn", dl, nl, k, l] => do
+    -- `_impl::scale<-k>` of an elastic_integer (elastic_integer/scale.h): the quotient by 2^k, truncated
+    let dl ← dl.toNat?; let nl ← parseIntTy nl; let k ← k.toNat?; let l ← l.toInt?
+    let x : ENum := ⟨dl, nl, l⟩
+    let spec : Option Bool := if !decide x.InRange then none else
+      match parseElRes res with
+      | some (d, sg, v) => some (v == l.tdiv (2^k) && withinDigits d sg v && d == dl - k)
+      | none => some false
+    some { model := showRes showENum (ElasticScaled.scaleDown x k), spec := spec, branch := "scaledn", nontrivial := decide x.InRange }
+  | ["sbin", op, dl, nl, el, dr, nr, er, l, r] => do
+    let op ← parseBinOp op; let dl ← dl.toNat?; let nl ← parseIntTy nl; let el ← el.toInt?
+    let dr ← dr.toNat?; let nr ← parseIntTy nr; let er ← er.toInt?; let l ← l.toInt?; let r ← r.toInt?
+    let x : ElasticScaled.ESNum := ⟨dl, nl, el, l⟩; let y : ElasticScaled.ESNum := ⟨dr, nr, er, r⟩
+    let guard := decide x.InRange && decide y.InRange && !((op == .div || op == .mod) && r == 0)
+    let spec : Option Bool := if !guard then none else
+      match parseEsRes res with
+      | some (d, sg, e, v) =>
+        let lhs : Rat := (v : Rat) * pow2Q e
+        let a : Rat := (l : Rat) * pow2Q el; let b : Rat := (r : Rat) * pow2Q er
+        let okv : Bool := match op with
+          | .add => lhs == a + b | .sub => lhs == a - b | .mul => lhs == a * b
+          | .div => v == l.tdiv r && e == el - er
+          | .mod => v == l.tmod r && e == el
+          | _ => false
+        some (okv && withinDigits d sg v)
+      | none => some false
+    some { model := showRes showESNum (ElasticScaled.binOp op x y), spec := spec, branch := "sbin/" ++ toks[1]!, nontrivial := guard }
+  | ["scmp", op, dl, nl, el, dr, nr, er, l, r] => do
+    let op ← parseCmpOp op; let dl ← dl.toNat?; let nl ← parseIntTy nl; let el ← el.toInt?
+    let dr ← dr.toNat?; let nr ← parseIntTy nr; let er ← er.toInt?; let l ← l.toInt?; let r ← r.toInt?
+    let x : ElasticScaled.ESNum := ⟨dl, nl, el, l⟩; let y : ElasticScaled.ESNum := ⟨dr, nr, er, r⟩
+    let a : Rat := (l : Rat) * pow2Q el; let b : Rat := (r : Rat) * pow2Q er
+    let want : Bool := match op with
+      | .lt => decide (a < b) | .le => decide (a ≤ b) | .gt => decide (a > b) | .ge => decide (a ≥ b)
+      | .eq => decide (a = b) | .ne => decide (a ≠ b)
+    let guard := decide x.InRange && decide y.InRange
+    some { model := showRes showBool (ElasticScaled.cmp op x y), spec := if guard then some (showBool want == res) else none,
+           branch := "scmp/" ++ toks[1]!, nontrivial := guard }
+  | ["sneg", dl, nl, el, l] => do
+    let dl ← dl.toNat?; let nl ← parseIntTy nl; let el ← el.toInt?; let l ← l.toInt?
+    let x : ElasticScaled.ESNum := ⟨dl, nl, el, l⟩
+    let spec : Option Bool := if !decide x.InRange then none else
+      match parseEsRes res with
+      | some (d, sg, e, v) => some (v == -l && e == el && withinDigits d sg v)
+      | none => some false
+    some { model := showRes showESNum (ElasticScaled.neg x), spec := spec, branch := "sneg", nontrivial := decide x.InRange }
   | _ => none
 
 end Cnl.Drv
